@@ -33,6 +33,7 @@ def run_login(tid, stages, final, sync, reset, extra=None, h=None):
     if extra:
         opts.update(extra)
     hop, custom = opts.pop('_hop', False), opts.pop('_custom', False)
+    echo = opts.pop('_echo', False)
     nlog0 = 0
     if hop:
         # two-hop login on one object: the outer host first, then `ssh inner` typed at its shell
@@ -48,6 +49,7 @@ def run_login(tid, stages, final, sync, reset, extra=None, h=None):
             opts.update(original_prompt=fakessh.INNER_ORIGINAL_PROMPT, password_regex=fakessh.INNER_PASSWORD_REGEX)
     else:
         srv = FakeServer(list(stages), final.replace('shell_', 'shell:'))
+        srv.echo = echo
         p = FakePxssh(srv, clock)
         who = ('h', 'user', 'secret')
         if custom:
@@ -76,12 +78,12 @@ def run_login(tid, stages, final, sync, reset, extra=None, h=None):
         p.chunk = [None, 1, 7, 64][(h // 8) % 4]
 
         def one(word):
+            want = ('echo ' + word + '\r\n' if srv.echo else '') + word + '\r\n'
             try:
                 ok = p.prompt(timeout=5)
-                cmds.append({'ok': bool(ok), 'before': p.before.decode('latin-1') if p.before is not None else None,
-                             'want': word + '\r\n'})
+                cmds.append({'ok': bool(ok), 'before': p.before.decode('latin-1') if p.before is not None else None, 'want': want})
             except Exception as e:
-                cmds.append({'ok': False, 'before': type(e).__name__, 'want': word + '\r\n'})
+                cmds.append({'ok': False, 'before': type(e).__name__, 'want': want})
         try:
             if ahead:
                 for word in words:
@@ -176,6 +178,10 @@ def run(ctx):
             sync, reset = rng.random() < 0.5, rng.random() < 0.7
             traces.append(run_login(len(traces), st, final, sync, reset, extra={'_hop': hop, '_custom': True}))
             nhop += 1
+    # the remote terminal echoes what is typed at the shell (as a real one does)
+    for c in rng.sample(configs, 500 if ctx.quick() else 3000):
+        traces.append(run_login(len(traces), *c, extra={'_echo': True}))
+        nhop += 1
     # a jump host with the default patterns (no message of the day: the default password_regex is documented to need help there)
     plain2 = [c for c in cfg2 if 'notice' not in c[0]]
     for st, final in (rng.sample(plain2, 200) if ctx.quick() else plain2):
